@@ -452,3 +452,50 @@ def documented_methods_rule(chk: Check, rule: str, aspect: str) -> None:
             chk.violation(rule, f, f"MethodMap.{meth} enumerates the raw path item (filter-independent)",
                           "the direct-access map hides operations excluded by the user's filters; the coverage phase computes `unexpected_methods - set(schema[path])`, so a documented but excluded method (DELETE after --exclude-method DELETE) is probed as an 'unspecified method': requests are sent to an excluded operation",
                           f.loc(hit))
+
+
+# ------------------------------------------------------------------------------------------------- generic forwarding
+FORWARDING_SUPPRESS = {
+    ("cli/commands/run/__init__.py:run", "headers", "set_header"): "Override(headers=...) takes the --set-header values; the -H option `headers` goes to NetworkConfig",
+}
+
+
+def forwarding_rule(chk: Check, rule: str, prefixes: tuple[str, ...], what: str, floor: int) -> None:
+    """FORWARDING: in every function (selected by qualname prefix) that passes >= 2 of its own parameters on under
+    their own names (`f(a=a, b=b)`), no parameter is silently dropped (never read in the body) and no keyword is
+    crossed (`a=b` where both are parameters of the wrapper)."""
+    chk.rule(rule, f"FORWARDING({what}): wrappers that pass their parameters on under their own names neither drop one (a parameter that is never read: the option is accepted and silently ignored) nor cross two (`a=b` with both being parameters of the wrapper)", floor=floor)
+    P = chk.project
+    n = 0
+    for fn in P.all_functions():
+        if isinstance(fn.node, ast.Lambda) or not any(fn.qualname.startswith(p) for p in prefixes):
+            continue
+        ps = params_of(fn.node)
+        a = fn.node.args
+        skip = {a.vararg.arg if a.vararg else None, a.kwarg.arg if a.kwarg else None, "self", "cls"}
+        fwd_calls = []
+        for c in calls(fn.node, into_nested=False):
+            ident = [k.arg for k in c.keywords if k.arg and isinstance(k.value, ast.Name) and k.value.id == k.arg and k.arg in ps]
+            crossed = [(k.arg, k.value.id) for k in c.keywords if k.arg and isinstance(k.value, ast.Name) and k.value.id != k.arg and k.value.id in ps and k.arg in ps]
+            if len(ident) + len(crossed) >= 2:
+                fwd_calls.append((c, ident, crossed))
+        if not fwd_calls:
+            continue
+        n += 1
+        loaded = {x.id for x in walk_body(fn.node, into_nested=True) if isinstance(x, ast.Name) and isinstance(x.ctx, ast.Load)}
+        unused = [p_ for p_ in ps if p_ not in loaded and p_ not in skip and not p_.startswith("_")]
+        bad = False
+        for c, ident, crossed in fwd_calls:
+            for k_, v_ in crossed:
+                why = FORWARDING_SUPPRESS.get((fn.qualname, k_, v_))
+                if why:
+                    chk.ok(rule, fn, f"{unparse(c.func, 40)}({k_}={v_})", f"named suppression: {why}", fn.loc(c))
+                else:
+                    bad = True
+                    chk.violation(rule, fn, f"{unparse(c.func, 40)}({k_}=<{k_}>)", f"`{k_}` receives the wrapper's parameter `{v_}` although the wrapper has a parameter `{k_}` of its own: the two options are crossed", fn.loc(c))
+        for p_ in unused:
+            bad = True
+            tgt = ", ".join(unparse(c.func, 40) for c, _i, _c in fwd_calls)
+            chk.violation(rule, fn, f"parameter `{p_}` is passed on", f"`{p_}` is accepted by `{fn.name}` but never read: it is no longer passed on to {tgt}, so the option / value is silently ignored", fn.loc())
+        if not bad:
+            chk.ok(rule, fn, "all parameters are used, none crossed", f"{sum(len(i) for _c, i, _x in fwd_calls)} identity-forwarded keyword(s)", fn.loc())
